@@ -100,7 +100,7 @@ func genC07(t *rapid.T) c7Case {
 			}
 			seen[n] = true
 			g := c7Gen{Name: n, Mode: rapid.SampledFrom([]string{"fixed", "new"}).Draw(t, "gmode"),
-				Behaviour: rapid.SampledFrom([]string{"render", "render", "nothing", "skip", "ignore", "ignore+output", "wrapignore", "wrapskip"}).Draw(t, "behaviour")}
+				Behaviour: rapid.SampledFrom([]string{"render", "render", "nothing", "skip", "ignore", "ignore+output", "wrapignore", "wrapskip", "ignore-first", "ignore-first+skip", "ignore-last"}).Draw(t, "behaviour")}
 			run.Gens = append(run.Gens, g)
 		}
 		ne := rapid.IntRange(1, len(c.Mod.Pkgs)).Draw(t, "nentries")
@@ -115,8 +115,35 @@ func genC07(t *rapid.T) c7Case {
 	return c
 }
 
-func (g c7Gen) script() *script.Script {
+func (g c7Gen) script(mc *ModCase) *script.Script {
 	s := &script.Script{Name: g.Name, Mode: g.Mode}
+	// behaviours that differ per type: ErrIgnore for one type of each package, nothing (or ErrSkip) for the others
+	if strings.HasPrefix(g.Behaviour, "ignore-first") || g.Behaviour == "ignore-last" {
+		s.PerType = map[string]script.Action{}
+		if strings.HasSuffix(g.Behaviour, "+skip") {
+			s.Default = script.Action{Err: "skip"}
+		}
+		for i := range mc.Mod.Pkgs {
+			p := &mc.Mod.Pkgs[i]
+			pkgLevel, _ := p.Types()
+			var names []string
+			for _, ti := range pkgLevel {
+				if !ti.Alias {
+					names = append(names, ti.Name)
+				}
+			}
+			sort.Strings(names)
+			if len(names) == 0 {
+				continue
+			}
+			pick := names[0]
+			if g.Behaviour == "ignore-last" {
+				pick = names[len(names)-1]
+			}
+			s.PerType[mc.Mod.PkgPath(p)+"."+pick] = script.Action{Err: "ignore"}
+		}
+		return s
+	}
 	render := []script.Piece{{Kind: "block", Text: "\nvar _$G_$T = $N\n"}}
 	switch g.Behaviour {
 	case "render":
@@ -146,7 +173,7 @@ func oracleC07(c c7Case) error {
 		var scripts []*script.Script
 		for _, g := range run.Gens {
 			globals["gengo:"+g.Name] = []string{""}
-			scripts = append(scripts, g.script())
+			scripts = append(scripts, g.script(&c.ModCase))
 		}
 		var entries []string
 		for _, e := range run.Entries {
